@@ -83,6 +83,21 @@ def run(repo: Repo, rep: Report, tier: str) -> None:
 
     c08.typestate(ps, rep, rule="R2.7")
 
+    # ---------------------------------------------------------------- R2.8 colliding property names keep distinct fields  [pattern of R20.2]
+    from rules.c20 import _dedup_site
+
+    class _R28:
+        def ok(self, rule, *a, **k):
+            rep.ok("R2.8", *a, **k)
+
+        def violation(self, rule, *a, **k):
+            rep.violation("R2.8", *a, **k)
+
+    _dedup_site(repo.func("visit.model.dataclass_generator:DataclassGenerator.generate"), "dataclass fields", "seen field names", _R28())
+
+    # ---------------------------------------------------------------- R2.9 the recursion context is threaded through every recursive parse
+    threading_rule(repo, rep, "R2.9")
+
     # ---------------------------------------------------------------- R2.2 name content
     ucd = repo.module("core.parsing.unified_cycle_detection")
     ucc = ucd.func("unified_cycle_check")
@@ -319,6 +334,53 @@ def run(repo: Repo, rep: Report, tier: str) -> None:
         else:
             rep.violation("R2.6", sub, f"{ps.fq}|registration|extra={len(extra)}|bypass={w is not None}",
                           f"a named, declared schema can be returned unregistered (additional condition(s) {extra}; bypass path {cfg.describe_path(w or [])})", ps.loc())
+
+
+def threading_rule(repo: Repo, rep, rule: str) -> None:
+    """Internal consistency of the recursive descent: inside a function that hands its own recursion context (the parameters in the
+    positions of `max_depth_override` / `allow_self_reference`) to one recursive `_parse_schema(...)` call, every such call passes it.
+    A call that silently falls back to the default (`allow_self_reference=False`) parses one sub-tree under different cycle rules: a
+    schema first reached through that sub-tree gets a placeholder instead of its fields (declaration-order dependent)."""
+    ps = repo.func(f"{SP}:_parse_schema")
+    pparams = ps.params
+    n_calls = 0
+    live = set(repo.import_closure(["generator.client_generator"]))
+    for mn, mod in repo.modules.items():
+        if not mn.startswith("pyopenapi_gen.core.parsing") or mn not in live:
+            continue
+        for fn in mod.functions.values():
+            if "<locals>" in fn.qualname:
+                continue
+            calls = [c for c in calls_in(fn.node, include_nested_defs=True) if (dotted(c.func) or "").split(".")[-1] == "_parse_schema"]
+            if len(calls) < 1:
+                continue
+            for idx in range(3, len(pparams)):
+                pname = pparams[idx]
+
+                def passed(c: ast.Call) -> Optional[ast.AST]:
+                    if len(c.args) > idx:
+                        return c.args[idx]
+                    for k in c.keywords:
+                        if k.arg == pname:
+                            return k.value
+                    return None
+
+                passing = [c for c in calls if passed(c) is not None]
+                own = fn is ps or any(isinstance(passed(c), ast.Name) and passed(c).id in fn.params for c in passing)  # type: ignore[union-attr]
+                if not own:
+                    continue
+                for c in calls:
+                    n_calls += 1
+                    sub = f"{mod.relpath}:{fn.qualname} recursive _parse_schema call #{calls.index(c) + 1} passes `{pname}`"
+                    if passed(c) is not None:
+                        rep.ok(rule, sub, f"`{pname}` handed on as `{norm(passed(c))}`", fn.loc(c))
+                    else:
+                        rep.violation(rule, sub, f"{fn.fq}|context-not-threaded|{pname}|call{calls.index(c) + 1}",
+                                      f"this recursive call omits `{pname}` although the other recursive calls of {fn.name} hand it on: the sub-tree is parsed "
+                                      "with the default instead of the caller's setting, so whether a self-referencing schema keeps its fields depends on "
+                                      "where it is first reached from (declaration order)", fn.loc(c))
+    rep.count(f"{rule}:recursive_call_obligations", n_calls)
+    rep.require(n_calls >= 8, f"{rule}: only {n_calls} (call, context parameter) obligations found (floor 8)")
 
 
 def _name_content(fn: Function, rep: Report) -> int:
